@@ -366,6 +366,20 @@ def rowOfMembers (cols : List Str) (es : List Expr) : Option (List (Option Expr)
 def singleRow (cols : List Str) (f : Str) (e : Expr) : List (Option Expr) :=
   (List.range cols.length).map (fun i => if cols.getD i [] == f then rekey (colKey i) e else none)
 
+/-- A member of the or-group becomes a row of the matrix (`inl`) or stays beside it (`inr`)
+    (optimiser.rs:179-376). -/
+def matrixClassify (cols : List Str) (x : Expr) : Sum (List (Option Expr)) Expr :=
+  match x with
+  | .group .and ms =>
+    (match rowOfMembers cols ms with
+     | some row => .inl row
+     | none => .inr x)
+  | .bin (.cast f _) _ r => if isLiteral r then .inl (singleRow cols f x) else .inr x
+  | .bin (.field f) _ r => if isLiteral r then .inl (singleRow cols f x) else .inr x
+  | .nested f _ => .inl (singleRow cols f x)
+  | .search _ f _ => .inl (singleRow cols f x)
+  | _ => .inr x
+
 def matrix : Nat → Expr → Expr
   | 0, e => e
   | fuel + 1, e =>
@@ -374,20 +388,10 @@ def matrix : Nat → Expr → Expr
     | .group .or es =>
       let scratch := es.map (matrix fuel)
       let fields := scratch.foldl countFields []
-      if fields.any (fun (_, n) => n > 1 && n < 256) then
+      -- columns are keyed by `char::from_u32(index)`: no matrix from 0xD800 columns on (repair)
+      if fields.any (fun (_, n) => n > 1 && n < 256) && decide (fields.length < 55296) then
         let cols := (stableSort (fun (a b : Str × Nat) => a.2 ≤ b.2) fields).map (·.1)
-        let classify (x : Expr) : Sum (List (Option Expr)) Expr :=
-          match x with
-          | .group .and ms =>
-            (match rowOfMembers cols ms with
-             | some row => .inl row
-             | none => .inr x)
-          | .bin (.cast f _) _ r => if isLiteral r then .inl (singleRow cols f x) else .inr x
-          | .bin (.field f) _ r => if isLiteral r then .inl (singleRow cols f x) else .inr x
-          | .nested f _ => .inl (singleRow cols f x)
-          | .search _ f _ => .inl (singleRow cols f x)
-          | _ => .inr x
-        let cl := scratch.map classify
+        let cl := scratch.map (matrixClassify cols)
         let rows := cl.filterMap (fun c => match c with | .inl r => some r | _ => none)
         let rest := cl.filterMap (fun c => match c with | .inr r => some r | _ => none)
         let out := (if rows.isEmpty then [] else [Expr.matrix cols rows]) ++ rest
